@@ -220,7 +220,7 @@ Proof.
   exists lo, hi. split; [exact Hlo|]. split; [exact Hhi|].
   unfold td_compress. destruct (d_cents d) as [|c0 cs] eqn:Ecs; [contradiction|].
   cbn [d_cents]. rewrite Et.
-  destruct (compress_cents_spec (d_comp d) W lo hi (c0 :: cs) Hf Nc) as (F & S & SW & _ & _).
+  destruct (compress_cents_spec (d_comp d) (d_min d) (d_max d) W lo hi (c0 :: cs) Hf Nc) as (F & S & SW & _ & _).
   splits; try assumption.
   eapply Qeq_trans; [exact SW|]. eapply Qeq_trans; [symmetry; exact HW | exact HWl].
 Qed.
